@@ -122,6 +122,10 @@ def build_action_via_documents(case):
     from async_upnp_client.client_factory import UpnpFactory
     sib = case.get("sibling")
     texts = [case["st"], case["action"], case["ctrl"]] + [a["name"] for a in case["args"]] + ([sib["st"], sib["ctrl"]] if sib else [])
+    # declaration texts too: a document cannot tell an empty element from an absent text (ElementTree reads both as None),
+    # and the directly built elements above carry "" - such cases stay on the direct path
+    for a in case["args"]:
+        texts += [a["type"]] + list(a.get("allowed") or []) + [b for b in (a.get("range") or []) if b is not None]
     if not all(_plain_for_xml(t) for t in texts) or len({a["name"] for a in case["args"]}) != len(case["args"]):
         raise ValueError("not expressible as documents")
     scpd = ET.Element(f"{{{NS_SVC}}}scpd")
